@@ -5425,8 +5425,18 @@ impl OutputRecordLayout {
     fn merge(&mut self, other: &OutputRecordLayout) {
         debug_assert!(other.mem_offset >= self.mem_offset);
         debug_assert!(other.file_offset >= self.file_offset);
-        self.mem_size += other.mem_size;
-        self.file_size += other.file_size;
+        if other.file_size > 0 {
+            // Cover everything up to the end of `other`, including any alignment padding in front
+            // of it. Memory offsets aren't meaningful for sections that don't get loaded, so we go
+            // by the file offsets.
+            let new_file_size = self
+                .file_size
+                .max(other.file_offset + other.file_size - self.file_offset);
+            self.mem_size += (new_file_size - self.file_size) as u64;
+            self.file_size = new_file_size;
+        } else {
+            self.mem_size += other.mem_size;
+        }
         if other.mem_size > 0 {
             self.alignment = self.alignment.max(other.alignment);
         }
